@@ -21,6 +21,7 @@ EXPLANATION = (
     'arithmetic of grow() are NOT decided.')
 EXPLANATION += ' Added after the seeded-change rounds: ' + "D5: a parked item is stored into the token ring only when token - low_token < array_size is known (branch edge, or grow(m) with m >= distance + 1; grow's post-condition array_size >= m is checked); D6: an item's token is assigned only while it has none (my_token_ready false / brand new item)."
 EXPLANATION += ' Added in the third session (round-3 seeds and the findings they led to): ' + "D1 also: the unlocked teardown walk of the parked ring is called from the pipeline destructor only; D3 rewritten independent of helper extraction (the token guard is recognised through helper return values and variables, obligations are lifted to call sites) and extended: the ordered token is assigned before the item's pipeline token is taken / the next input task is started."
+EXPLANATION += ' Added later in the fourth round: ' + "D6 also: the thread-local end-of-input mark of a parallel input filter with nullable items is lowered wherever it was observed as raised (inside the observing function on every path that saw it raised, or after the observer's call)."
 ASSUMPTIONS = ['spin_mutex::scoped_lock RAII model', 'the serial input stage is invoked by one task at a time (token protocol D3)']
 ND = ['global in-order property of serial_in_order stages across all delays', 'ring rehash arithmetic in grow()',
       '"returns only after the last item left" beyond D4']
